@@ -33,7 +33,33 @@ fn msg_id(d: &[u8]) -> String {
     else if s.ends_with("Label too long") { "1".into() }
     else if s.ends_with("Name too long") { "2".into() }
     else if s.ends_with("Non-ASCII character in a label") { "3".into() }
+    else if s == "Parse error" { "4".into() }
+    else if s == "Packet too large" { "5".into() }
+    else if s.ends_with("A non-empty name cannot start with a NUL byte") { "6".into() }
+    else if s.ends_with("Empty name") { "7".into() }
+    else if s.ends_with("A DNS packet can only contain up to one question") { "8".into() }
     else { format!("?{}", crate::msg::hex(d)) }
+}
+
+/// failure kinds 4.. : failures other table entries report (record text, size limit, rename arguments, second question)
+fn fail_other(t: &FnTable, id: usize, err: &mut *const CErr) -> i32 {
+    let small = crate::msg::unhex("12348180000100010000000003777777076578616d706c6503636f6d0000010001c00c000100010000003c00040a000001").unwrap();
+    let mut pp = dnssector::DNSSector::new(small).unwrap().parse().unwrap();
+    unsafe {
+        match id {
+            4 => { let txt = std::ffi::CString::new("this is not a record").unwrap(); (t.add_to_answer)(&mut pp, err, txt.as_ptr()) }
+            5 => {
+                // fill the packet up to the 8192-byte limit with TXT records, then one more
+                let txt = std::ffi::CString::new(format!("t.example. 60 IN TXT \"{}\"", "x".repeat(1000))).unwrap();
+                let mut r = 0;
+                for _ in 0..12 { r = (t.add_to_answer)(&mut pp, err, txt.as_ptr()); if r != 0 { break; } }
+                r
+            }
+            6 => { let (tg, src) = ([0u8], b"\x07example\x03com\x00"); (t.rename_with_raw_names)(&mut pp, err, tg.as_ptr(), tg.len(), src.as_ptr(), src.len(), true) }
+            7 => { let (tg, src) = ([0u8; 0], b"\x03www\x07example\x03com\x00"); (t.rename_with_raw_names)(&mut pp, err, tg.as_ptr(), 0, src.as_ptr(), src.len(), false) }
+            _ => { let txt = std::ffi::CString::new("second.example. 60 IN A 192.0.2.1").unwrap(); (t.add_to_question)(&mut pp, err, txt.as_ptr()) }
+        }
+    }
 }
 
 fn worker(rx: Receiver<Cmd>, tx: Sender<String>) {
@@ -41,6 +67,13 @@ fn worker(rx: Receiver<Cmd>, tx: Sender<String>) {
     let mut err: *const CErr = std::ptr::null();
     loop {
         match rx.recv() {
+            Ok(Cmd::Fail(id, stale)) if id >= 4 => {
+                let last = LAST_HANDED.load(Ordering::SeqCst);
+                if stale && last != 0 { err = last as *const CErr; }
+                let r = fail_other(&t, id, &mut err);
+                LAST_HANDED.store(err as usize, Ordering::SeqCst);
+                tx.send(format!("{}", r)).unwrap();
+            }
             Ok(Cmd::Fail(id, stale)) => {
                 let n = failing_input(id);
                 let last = LAST_HANDED.load(Ordering::SeqCst);
